@@ -15,6 +15,7 @@ type vMTree struct {
 	rootEH    bool
 	insideOut bool // mount children into their parent before the parent is mounted
 	lens      []int
+	grps      []string // per node: mounted through parent.Group(grps[i]) ("" = directly)
 }
 
 var vC08Catalogue = []vMTree{
@@ -28,6 +29,7 @@ var vC08Catalogue = []vMTree{
 	/* 7*/ {nodes: []vMNode{{"/m", true, -1}, {"/m", true, 0}, {"/m", false, 1}}, rootEH: true, lens: []int{2, 4, 6, 7}},
 	/* 8*/ {nodes: []vMNode{{"/a", true, -1}, {"/s", true, 0}, {"/s", true, -1}}, rootEH: true, lens: []int{2, 3, 4, 5}},
 	/* 9*/ {nodes: []vMNode{{"/", true, -1}, {"/a", true, -1}, {"/b", true, 0}}, rootEH: true, lens: []int{1, 2, 3, 4}},
+	/*10*/ {nodes: []vMNode{{"/", true, -1}, {"w", true, -1}}, grps: []string{"/v1/", "/v2/"}, rootEH: true, lens: []int{3, 4, 5, 6}},
 }
 
 var vErrPlain = errors.New("plain failure")
@@ -76,6 +78,14 @@ func VH_C08_errors(caseID int) {
 		apps[i] = New(cfg)
 		apps[i].Get("/_", func(c Ctx) error { handled = true; return nil })
 		p := vTrimSlashes(n.prefix)
+		if p != "" && p[0] != '/' {
+			p = "/" + p
+		}
+		grp := ""
+		if i < len(tr.grps) {
+			grp = tr.grps[i]
+		}
+		p = vTrimSlashes(grp) + p
 		if n.parent >= 0 {
 			full[i] = full[n.parent] + p
 		} else {
@@ -84,11 +94,14 @@ func VH_C08_errors(caseID int) {
 	}
 	mount := func(i int) {
 		n := tr.nodes[i]
+		var host Router = app
 		if n.parent >= 0 {
-			apps[n.parent].Use(n.prefix, apps[i])
-		} else {
-			app.Use(n.prefix, apps[i])
+			host = apps[n.parent]
 		}
+		if i < len(tr.grps) && tr.grps[i] != "" {
+			host = host.Group(tr.grps[i])
+		}
+		host.Use(n.prefix, apps[i])
 	}
 	if tr.insideOut {
 		for i := len(tr.nodes) - 1; i >= 0; i-- {
